@@ -20,9 +20,11 @@ float.  Two streams:
     exactly on the thresholds (|beat_error| == goto_threshold, phase == threshold, period == threshold,
     thr*median == k + 1/2, bin distance == win) are constructed deliberately;
   * float stream: arbitrary lattice intervals and the float defaults 0.35/0.2/0.2, 0.2, 0.175/0.175.  A case is
-    dropped (and counted) when perturbing any threshold by +-(1e-9 relative + 1e-12) changes an output of the real
-    code, i.e. when some computed quantity is within rounding distance of a threshold (in the exact stream this
-    filter is applied to goto_mu / goto_sigma only, whose statistics are not exact).
+    dropped (and counted) when perturbing any threshold (one at a time, and all of one function together) by
+    +-(1e-9 relative + 1e-12) changes an output or an internal array (incorrect beats of goto, beat_successes of
+    continuity) of the real code, i.e. when some computed quantity is within rounding distance of a threshold (in
+    the exact stream this filter is applied to goto_mu / goto_sigma only, whose statistics are not exact, and to
+    continuity when the reference intervals are irregular).
 p_score builds two impulse trains of 100 samples per second and a full cross-correlation (quadratic), so it is run
 only when the beats span <= 40 s (it re-bases at the minimum, so absolute times may be large)."""
 import math
@@ -32,7 +34,7 @@ from lib import core
 
 DEN = 64
 WARN = [('Reference beats are empty', 'W_ref_empty'), ('Estimated beats are empty', 'W_est_empty'),
-        ('Only one reference beat', 'W_ref_one'), ('Only one estimated beat', 'W_est_one')]
+        ('Only one reference beat', 'W_ref_one'), ('Only one estimated beat', 'W_est_one'), ('bins parameter is even', 'W_bins_even')]
 DEFAULTS = {'gthr': 0.35, 'gmu': 0.2, 'gsig': 0.2, 'pthr': 0.2, 'cph': 0.175, 'cpe': 0.175, 'csig': 0.04, 'min': 5.0}
 PSCORE_SPAN = 40.0
 
@@ -98,7 +100,7 @@ def run_goto(case, **over):
     from mir_eval import beat as B
     p = dict(case, **over)
     return call_w(B.goto, arr(case['ref']), arr(case['est']), goto_threshold=p['gthr'], goto_mu=p['gmu'], goto_sigma=p['gsig'],
-                  record=('flatnonzero', 'mean'))
+                  record=('flatnonzero', 'mean', 'abs'))
 
 
 def run_pscore(case, **over):
@@ -111,7 +113,7 @@ def run_cont(case, **over):
     from mir_eval import beat as B
     p = dict(case, **over)
     return call_w(B.continuity, arr(case['ref']), arr(case['est']), continuity_phase_threshold=p['cph'],
-                  continuity_period_threshold=p['cpe'])
+                  continuity_period_threshold=p['cpe'], record=('append',))
 
 
 def invalid(case):
@@ -138,18 +140,30 @@ def fragile(case):
     def pert(x):
         d = 1e-9 * abs(x) + 1e-12
         return [x - d, x + d]
+    # the internal arrays are compared too (incorrect beats of goto, beat_successes of every metrical variation)
+    def gobs(r):
+        return (norm_out(r[0]), [[int(i) for i in a] for a in r[2]['flatnonzero'][:1]])
+
+    def cobs(r):
+        return (norm_out(r[0]), [[bool(x) for x in a] for a in r[2]['append']])
     keys_g = ['gmu', 'gsig'] if case.get('exact') else ['gthr', 'gmu', 'gsig']
-    base = norm_out(run_goto(case)[0])
+    base = gobs(run_goto(case))
     for k in keys_g:
         for v in pert(case[k]):
-            if norm_out(run_goto(case, **{k: v})[0]) != base:
+            if gobs(run_goto(case, **{k: v})) != base:
                 return True
+    for side in (0, 1):                       # two quantities exactly on two thresholds: perturb them together
+        if gobs(run_goto(case, **{k: pert(case[k])[side] for k in keys_g})) != base:
+            return True
     if not (case.get('exact') and case.get('regular')):
-        base = norm_out(run_cont(case)[0])
+        base = cobs(run_cont(case))
         for k in ['cph', 'cpe']:
             for v in pert(case[k]):
-                if norm_out(run_cont(case, **{k: v})[0]) != base:
+                if cobs(run_cont(case, **{k: v})) != base:
                     return True
+        for side in (0, 1):
+            if cobs(run_cont(case, cph=pert(case['cph'])[side], cpe=pert(case['cpe'])[side])) != base:
+                return True
     if case.get('exact'):
         return False
     if span_ok(case):
@@ -172,6 +186,7 @@ class U(core.Unit):
     counts = {'quick': 1800, 'thorough': 20000}
     shard = 150
     header = '''
+From Coq Require Import Qabs.
 Open Scope Q_scope.
 Definition tolq : Q := 1#1000000000.
 Definition ql := list_eqb Qeqb.
@@ -183,7 +198,13 @@ Definition wl := list_eqb bwarn_eqb.
 Record bcase := mk {
   ref : list Q; est : list Q; mint : Q; gthr : Q; gmu : Q; gsig : Q; pthr : Q; cph : Q; cpe : Q;
   o_trim : list Q; o_vars : res (list (list Q)); o_goto : res Q; o_ps : option (res Q); o_cont : res (Q * Q * Q * Q);
-  o_cem : res (option (list (list Q))); o_cem_numeric : bool; w_val : list bwarn; w_int : list bwarn }.
+  o_cem : res (option (list (list Q))); o_cem_numeric : bool; w_val : list bwarn; w_int : list bwarn;
+  o_gabs : option (list Q); o_succ : option (list (list bool)) }.
+(* internal arrays: |beat_error| of goto; beat_successes (one array per metrical variation) of continuity *)
+Definition cont_succ (var est : list Q) (pth qth : Q) : list bool :=
+  match var with
+  | v0 :: vt => cont_loop v0 vt pth qth None est [] ++ repeat false (Nat.max (List.length var) (List.length est) - List.length est)
+  | [] => [] end.
 Definition check_case (c : bcase) : bool :=
   ql (trim_beats (ref c) (mint c)) (o_trim c)
   && res_eqb qll (Ok (variations (ref c))) (o_vars c)
@@ -191,7 +212,11 @@ Definition check_case (c : bcase) : bool :=
   && match o_ps c with Some o => res_eqb (Qclose tolq) (p_score (ref c) (est c) (pthr c)) o | None => true end
   && res_eqb q4close (continuity (ref c) (est c) (cph c) (cpe c)) (o_cont c)
   && res_eqb (opt_eqb qll) (cemgil_dists (ref c) (est c)) (o_cem c) && o_cem_numeric c
-  && wl (validate_warns (ref c) (est c)) (w_val c) && wl (interval_warns (ref c) (est c)) (w_int c).
+  && wl (validate_warns (ref c) (est c)) (w_val c) && wl (interval_warns (ref c) (est c)) (w_int c)
+  && match o_gabs c with Some a => list_eqb (Qclose tolq) (map Qabs (goto_beat_errors (ref c) (est c))) a | None => true end
+  && match o_succ c with
+     | Some ss => list_eqb (list_eqb Bool.eqb) (map (fun v => cont_succ v (est c) (cph c) (cpe c)) (variations (ref c))) ss
+     | None => true end.
 '''
 
     def __init__(self):
@@ -232,6 +257,13 @@ Definition check_case (c : bcase) : bool :=
                            ([0.0, 0.0, 0.0, 0.0, 0.0, 0.0], 0.25, 0.0), ([0.0, 0.0, 0.0, 0.0, 0.0, 0.0], 0.25, -0.25)]:
             e = [per[0]] + [per[i + 1] + ds[i] for i in range(6)] + [per[7]]
             out.append(C(per, e, exact=True, gthr=0.375, gmu=mu, gsig=sg, pthr=0.25, cph=0.1875, cpe=0.1875))
+        # goto: an extra estimate exactly on a window boundary (midpoint of two reference beats): it belongs to the later
+        # window only; with mu = 0.25 the track [1,0*7,1] (mean 2/9) passes and the score is 1
+        l16 = L(range(320, 320 + 64 * 16, 64))
+        for mid in [12.5, 6.5, 18.5, 5.5]:
+            out.append(C(l16, sorted(l16 + [mid]), exact=True, gthr=0.375, gmu=0.25, gsig=0.5, pthr=0.25, cph=0.1875, cpe=0.1875))
+            out.append(C(l16, sorted([x for x in l16 if x != mid + 0.5] + [mid]), exact=True, gthr=0.375, gmu=0.25, gsig=0.5, pthr=0.25,
+                         cph=0.1875, cpe=0.1875))
         # goto threshold >= 1 (IndexError), negative threshold, several incorrect beats (track branch)
         for thr in [1.0, 2.0, -1.0, 0.0, 0.984375]:
             out.append(C(per, per, exact=True, gthr=thr, gmu=0.25, gsig=0.25, pthr=0.25, cph=0.1875, cpe=0.1875))
@@ -292,7 +324,7 @@ Definition check_case (c : bcase) : bool :=
         # estimate
         k = rng.random()
         style = ('jitter' if k < 0.34 else 'double' if k < 0.44 else 'half' if k < 0.54 else 'offbeat' if k < 0.62 else
-                 'self' if k < 0.70 else 'holes' if k < 0.85 else 'random' if k < 0.93 else 'shifted')
+                 'self' if k < 0.68 else 'holes' if k < 0.80 else 'mid' if k < 0.87 else 'random' if k < 0.94 else 'shifted')
         half_iv = lambda i: (ivs[min(i, len(ivs) - 1)])
         jit = rng.choice([0, 1, 2, 4, 8])
         if style in ('jitter', 'holes'):
@@ -329,6 +361,13 @@ Definition check_case (c : bcase) : bool :=
             est = sorted((ref[i] + ref[i + 1]) // 2 + rng.randint(-jit, jit) for i in range(len(ref) - 1))
         elif style == 'self':
             est = list(ref)
+        elif style == 'mid':                                       # the reference plus estimates exactly on window boundaries
+            est = [r + rng.choice([0, 0, 0, 1, -1]) * rng.randint(0, jit) for r in ref]
+            for _ in range(rng.randint(1, 3)):
+                i = rng.randrange(max(1, len(ref) - 1))
+                if i + 1 < len(ref) and (ref[i] + ref[i + 1]) % 2 == 0:
+                    est.append((ref[i] + ref[i + 1]) // 2)
+            est.sort()
         elif style == 'shifted':
             d = rng.choice([1, 2, 3, 6, 12, 16, 32])
             est = [r + d for r in ref]
@@ -388,6 +427,13 @@ Definition check_case (c : bcase) : bool :=
         o['goto'] = norm_out(g)
         o['g_inc'] = len(grec['flatnonzero'][0]) if grec['flatnonzero'] else None
         o['g_track'] = bool(grec['mean'])
+        # |beat_error| as passed to np.flatnonzero(np.abs(beat_error) > goto_threshold): the first np.abs of full length
+        o['g_abs'] = None
+        if g[0] == 'ok' or g[1] == 'IndexError':
+            for a in grec['abs']:
+                if getattr(a, 'shape', None) == (len(case['ref']),):
+                    o['g_abs'] = [fl(x) for x in a]
+                    break
         if span_ok(case) or invalid(case) or not (len(case['ref']) > 1 and len(case['est']) > 1):
             p, pw, prec = run_pscore(case)
             o['ps'] = norm_out(p)
@@ -396,8 +442,12 @@ Definition check_case (c : bcase) : bool :=
             p, pw = None, None
             o['ps'] = None
             o['ps_win'] = None
-        c, cw, _ = run_cont(case)
+        c, cw, crec = run_cont(case)
         o['cont'] = norm_out(c)
+        # beat_successes per variation: np.append(np.append(0, beat_successes), 0) without the two added zeros
+        o['succ'] = None
+        if c[0] == 'ok' and len(crec['append']) == 10:
+            o['succ'] = [[bool(x) for x in a[1:-1]] for a in crec['append'][1::2]]
         # cemgil: skeleton distances observed through the recording proxy, numeric test of the float scores
         m, mw, mrec = call_w(B.cemgil, ref, est, cemgil_sigma=case['csig'], record=('min',))
         if m[0] != 'ok':
@@ -436,7 +486,9 @@ Definition check_case (c : bcase) : bool :=
         fields = [ql(case['ref']), ql(case['est']), Q(case['min']), Q(case['gthr']), Q(case['gmu']), Q(case['gsig']), Q(case['pthr']),
                   Q(case['cph']), Q(case['cpe']), ql(out['trim']), core.cq_res(out['vars'], qll), core.cq_res(out['goto'], Q), ps,
                   core.cq_res(out['cont'], q4), core.cq_res(out['cem'], lambda v: core.cq_opt(v, qll)), core.cq_bool(out['cem_num']),
-                  wl(out['w_val']), wl(out['w_int'])]
+                  wl(out['w_val']), wl(out['w_int']),
+                  core.cq_opt(out.get('g_abs'), ql),
+                  core.cq_opt(out.get('succ'), lambda ss: core.cq_list([core.cq_list([core.cq_bool(b) for b in s]) for s in ss]))]
         return '(mk ' + ' '.join(fields) + ')'
 
     def nontrivial(self, case, out):
@@ -447,10 +499,11 @@ Definition check_case (c : bcase) : bool :=
             for i in range(len(case[k])):
                 c = dict(case)
                 c[k] = case[k][:i] + case[k][i + 1:]
-                yield c
+                if not fragile(c):            # never shrink into a float-rounding hazard
+                    yield c
 
     def describe(self, case, out):
-        return {'case': case, 'impl': {k: out[k] for k in out if k not in ('cem', 'vars', 'trim')}}
+        return {'case': case, 'impl': {k: out[k] for k in out if k not in ('cem', 'vars', 'trim', 'succ', 'g_abs')}}
 
     def distribution(self, pairs):
         d = {'dropped_fragile(float-rounding near a threshold)': self.dropped_fragile}
